@@ -36,14 +36,21 @@ def build_file_with_item(S, an, assign, with_units, named, two):
     lf.add_origin('ORIGIN', file_set_number=1, creation_time='2020/01/01 00:00:00')
     ch = lf.add_channel('CHX', data=np.arange(3, dtype=np.float64))
     lf.add_frame('FRX', channels=(ch,))
-    parent = df._eflr_sets.get_or_make_set(S, set_name='SN' if named else None)
+    name_mode = int(named)
+    parent = df._eflr_sets.get_or_make_set(S, set_name=(None, 'SN', None, 'OLD', 'OLD')[name_mode])
     lf._eflr_sets.try_add_set(parent)
+    if name_mode >= 2:
+        parent.set_name = 'SN' if name_mode in (2, 3) else None
     from vf.sites import make_item
-    kw = {}
+    kw, kw2 = {}, {}
+    if S.__name__ == 'FrameSet':
+        # a frame needs channels of its own (with data) to be writable
+        kw['channels'] = (lf.add_channel('CHY', data=np.arange(3, dtype=np.float64)),)
+        kw2['channels'] = (lf.add_channel('CHZ', data=np.arange(3, dtype=np.float64)),)
     it = make_item(S, 'OBJ', parent=parent, origin=lf.default_origin_reference, **kw) if S.__name__ != 'OriginSet' else \
         lf.add_origin('OBJ', file_set_number=2, creation_time='2020/01/01 00:00:00')
     if two:
-        make_item(S, 'OBJ', parent=parent, origin=lf.default_origin_reference) if S.__name__ != 'OriginSet' else \
+        make_item(S, 'OBJ', parent=parent, origin=lf.default_origin_reference, **kw2) if S.__name__ != 'OriginSet' else \
             lf.add_origin('OBJ', file_set_number=3, creation_time='2020/01/01 00:00:00')
     a = getattr(it, an)
     return df, lf, it, a
@@ -61,9 +68,12 @@ def replay_item(p):
         if not cand:
             return {'reproduced': False, 'ok': True, 'detail': 'class without sites'}
         si, mult, with_units, x, s, arm = cand[si % len(cand)], 1, False, 1, 'a', True
+        name_mode = int(named)
+        named_final = name_mode in (1, 2, 3)
     else:
         si, mult, with_units, x, s, arm = args[:6]
         named, two = False, False
+        named_final = False
     (ci, an) = sites.ACTIVE_SITES[si]
     S = sites.ITEM_SETS[ci]
     argmap = {'site': S.__name__ + '.' + an, 'mult': mult, 'x': x, 's': s, 'arm': arm}
@@ -112,7 +122,7 @@ def replay_item(p):
         return {'reproduced': True, 'ok': False, 'detail': '; '.join(errs[:3]), 'argmap': argmap}
     found = None
     for rec, e in lfv.eflrs:
-        if e.set_type == S.set_type and (e.set_name == ('SN' if named else None)):
+        if e.set_type == S.set_type and (e.set_name == ('SN' if named_final else None)):
             for obn, attrs in e.objects:
                 if obn[2] == 'OBJ' and obn[1] == 0:
                     found = (e, attrs)
